@@ -24,6 +24,7 @@ type Scenario struct {
 	Timed           bool          `json:"timed"`
 	TimePerBlock    time.Duration `json:"time_per_block"`
 	MaxTimePerBlock time.Duration `json:"max_time_per_block"`
+	StrictVerify    bool          `json:"strict_verify,omitempty"` // VerifyBlock/VerifyPreBlock also refuse a block whose attached transactions are not exactly the listed ones
 	OneShotSub      bool          `json:"one_shot_sub,omitempty"` // OnNewTransaction is called at most once per SubscribeForTxs call and never without one (config.go: "single-use")
 	TimeVar         bool          `json:"time_var,omitempty"` // TimePerBlock / MaxTimePerBlock callbacks answer differently at odd and even ledger heights
 	TSIncrement     uint64        `json:"ts_increment"`
